@@ -52,6 +52,7 @@ class real:
 
 _active: "World | None" = None
 _installed = False
+open_fault: list = [None]       # callable(path, mode) -> errno | None
 _NO = object()
 _HEX32 = re.compile(r"[0-9a-f]{32}")
 
@@ -640,6 +641,13 @@ def install() -> None:
     def open_(file, mode="r", *a, **k):
         if isinstance(file, int):
             return real.open(file, mode, *a, **k)
+        hook = open_fault[0]
+        if hook is not None:
+            # (a fault outside any simulated world: e.g. while an error
+            # message is being formatted)
+            eno = hook(file, mode)
+            if eno:
+                raise OSError(eno, os.strerror(eno), os.fspath(file))
         w = _world_for(file)
         if w is None:
             return real.open(file, mode, *a, **k)
